@@ -18,7 +18,9 @@ THEOREMS = ["Mpir.AliasMem.rootrem_ptr_spec", "Mpir.AliasMem.rootrem_exceptions"
             "Mpir.AliasMem.powm_ptr_spec", "Mpir.AliasMem.powm_ui_ptr_spec", "Mpir.AliasMem.addmul_ptr_spec", "Mpir.AliasMem.submul_ptr_spec",
             "Mpir.AliasMem.mpz_sqrt_ptr_spec", "Mpir.AliasMem.mpz_lcm_ptr_spec", "Mpir.AliasMem.mpz_invert_ptr_spec"]
 PINS = [("mpz/mul.c", None), ("gmp-mparam.h", "MUL_KARATSUBA_THRESHOLD"), ("mpz/gcdext.c", None), ("mpz/powm.c", None), ("mpz/powm_ui.c", None),
-        ("mpz/aorsmul.c", None), ("mpz/aorsmul_i.c", None), ("mpz/sqrt.c", None), ("mpz/lcm.c", None), ("mpz/invert.c", None), ("mpf/div.c", None), ("mpf/mul.c", None), ("mpf/sqrt.c", None), ("mpf/div_ui.c", None)]
+        ("mpz/aorsmul.c", None), ("mpz/aorsmul_i.c", None), ("mpz/sqrt.c", None), ("mpz/lcm.c", None), ("mpz/invert.c", None), ("mpf/div.c", None), ("mpf/mul.c", None), ("mpf/sqrt.c", None), ("mpf/div_ui.c", None),
+        ("mpz/root.c", None), ("mpz/remove.c", None), ("mpz/bin_ui.c", None), ("mpf/ceilfloor.c", None), ("mpf/trunc.c", None),
+        ("mpf/mul_2exp.c", None), ("mpf/div_2exp.c", None), ("mpf/ui_div.c", None)]
 TRUSTED = ["hand-written pointer-level models lean/Mpir/Model/AliasMul.lean, AliasGcdext.lean, AliasPowm.lean, AliasMisc.lean, AliasMpf.lean, AliasMpf3.lean "
            "(tied by the ops alias_* of harness/ops_alias2.c on every index assignment: values, ALLOC and which blocks were replaced; mpf: every header "
            "field and the limbs of all three variables; source pins on the mirrored C files and MUL_KARATSUBA_THRESHOLD)"]
